@@ -3,7 +3,7 @@
 # run the demo with the patch (must fail), without it (must pass), and the touched package's own tests with it (must pass).
 set -u
 ID=$1; PKG=$2; shift 2
-WT=/tmp/mut-$ID; OUT=/tmp/mut-$ID-out
+P=${MUT_PREFIX:-mut}; WT=/tmp/$P-$ID; OUT=/tmp/$P-$ID-out
 export CARGO_NET_OFFLINE=true CARGO_TARGET_DIR=$WT/target
 cd $WT || exit 2
 LOG=$OUT/confirm.log; : > $LOG
